@@ -71,8 +71,15 @@ def r1_evolve(chk):
         ev = prog.method(ci, "evolve")
         chk.require(ev is not None, f"{ci.name}.evolve vanished")
         chk.analysed(ev)
-        mf = _mutable_fields(prog, ci)
+        from ..util import shared_mutable_defaults
+
+        shared = shared_mutable_defaults(prog, ci)
+        mf = _mutable_fields(prog, ci) or [n for n, _, _ in shared]
         chk.require(mf, f"{ci.name}: no mutable field found (attrib expected)")
+        chk.decide(not shared, "C06.R1", f"{ci.module.relpath}:{ci.name}:field-defaults-are-per-instance", f"{ci.module.relpath}:{(shared[0][1] if shared else ci.node).lineno}",
+                   "every container default is a factory",
+                   "; ".join(f"field `{n}` defaults to the single object `{t}`" for n, _, t in shared) +
+                   f": every {ci.name} created without that argument shares it - editing it on one object (or on a copy) changes all others")
         uses_attrs_evolve = has_call(ev.node, {"attrs.evolve", "evolve", "attr.evolve"})
         for fld in mf:
             ok = False
